@@ -1606,15 +1606,6 @@ Definition cp_ok (h : heap) (log : list (nat * path * Z)) (i : nat) (t : thread)
        resolve h t0 p' = Some l /\ get_cont h l = CLeaf v).
 
 
-Lemma walk_ok_pos h t p t0 p' :
-  walk_ok h t -> walk_pos t = Some (p, t0, p') ->
-  exists pre ns, p = pre ++ p' /\ resolve h 0 pre = Some t0 /\ rwalk h 0 pre = Some ns /\
-                 Forall (fun x => x < t0 /\ exists m, In (x, m) (held t)) ns.
-Proof.
-  intros Wt W. unfold walk_ok in Wt.
-  destruct (tpc t) eqn:P; try (rewrite W in Wt; exact Wt).
-  unfold walk_pos in W. rewrite P in W. destruct (top t); discriminate.
-Qed.
 
 (** another thread's step keeps [cp_ok] of thread [ti] *)
 Lemma cp_other ops s log i j ti tj h' tj' :
@@ -1660,30 +1651,6 @@ Proof.
     eapply (CONTRA p0). right. exists k, r. unfold walk_pos. rewrite Tj', Pc. reflexivity.
 Qed.
 
-Lemma step_not_start b h t h' t' : tstep_gen b h t = Some (h', t') -> forall o, tpc t' <> PStart o.
-Proof.
-  intros ST o. pose proof (tstep_shape _ _ _ _ _ ST) as SH.
-  destruct t as [o0 p hs]. cbn [tpc top held] in *.
-  destruct (lockop_of (TH o0 p hs)) eqn:LO.
-  - destruct SH as [_ ->]. cbn [tpc].
-    destruct p; cbn -[Nat.ltb hdelete set_cont new_chain] in *; try discriminate;
-    repeat (first
-              [ match goal with |- context [start_pc ?a ?b] => destruct b end
-              | match goal with |- context [match get_cont ?a ?b with _ => _ end] => destruct (get_cont a b) end
-              | match goal with |- context [match assoc ?a ?b with _ => _ end] => destruct (assoc a b) end
-              | match goal with |- context [if Nat.ltb ?a ?b then _ else _] => destruct (Nat.ltb a b) end
-              | match goal with |- context [if Nat.eqb ?a ?b then _ else _] => destruct (Nat.eqb a b) end
-              | match goal with |- context [match query_visits ?a ?b with _ => _ end] => destruct (query_visits a b) end
-              | match goal with |- context [if heads_all ?a then _ else _] => destruct (heads_all a) end
-              | match goal with |- context [match strip_glob ?a with _ => _ end] => destruct (strip_glob a) end
-              | match goal with |- context [match dtodo ?a with _ => _ end] => destruct (dtodo a) as [|[? ?] ?] end
-              | match goal with |- context [match ?x with _ => _ end] => is_var x; destruct x end ];
-            cbn -[Nat.ltb hdelete set_cont new_chain] in *; try discriminate).
-  - destruct SH as [_ [_ ->]]. cbn [tpc]. destruct p; cbn in *; try discriminate; qfin.
-  - destruct SH as [_ ->]. cbn [tpc]. destruct p; cbn in *; try discriminate; qfin.
-  - destruct SH as [_ [_ ->]]. cbn [tpc]. destruct p; cbn in *; try discriminate; qfin.
-  - destruct SH as [n [m [hs' [_ [_ ->]]]]]. cbn [tpc]. destruct p; cbn in *; try discriminate; qfin.
-Qed.
 
 Lemma is_prefix_refl r : is_prefix r r = true.
 Proof. apply is_prefix_spec. exists []. rewrite app_nil_r. reflexivity. Qed.
